@@ -61,6 +61,7 @@ fn run_hist(c: &Case, prob: &Prob, atol: f64, script: Vec<(usize, Act)>) -> Resu
     let y0 = prob.y0();
     let mut so = RecSolOut::new(script);
     so.counter = Some(&instr.log);
+    so.thetas = vec![0.5, 0.8];
     let r = guarded(|| solve_low(c.method, &instr, sp.x0, sp.xend, &y0, &Tol::S(c.rtol), &Tol::S(atol), &lo, &mut so))?;
     let r = r?;
     let log = instr.log.borrow();
@@ -119,6 +120,36 @@ pub fn check(c: &Case) -> Outcome {
     if base.recs.len() != base.accepted + 1 {
         return Outcome::viol(format!("{}: {} callbacks for {} accepted steps (expected accepted+1)", name, base.recs.len(), base.accepted));
     }
+    // "passing an interpolant valid on that interval": inside the step it is as accurate as C07 demands of the
+    // dense output (10 x the step-end errors + the C01 bound; RK4: + |y| (rate h)^4), for steps in the
+    // asymptotic range h*rate <= 1
+    if base.status == Status::Success {
+        let rate = prob.rate_t();
+        let kappa = prob.kappa();
+        let ymax = base.recs.iter().fold(0.0f64, |m, r| m.max(inf_norm(&r.y)));
+        let mut tolscale = atol + c.rtol * ymax;
+        if c.method == Meth::RADAU {
+            tolscale = tolscale.max(crate::props::c01::radau_internal_tolscale(&[c.rtol], &[atol], &[ymax]));
+        }
+        let errs: Vec<f64> = base.recs.iter().map(|r| max_abs_diff(&r.y, &prob.exact(r.x))).collect();
+        for k in 1..base.recs.len() {
+            let r = &base.recs[k];
+            let h = (r.x - r.xold).abs();
+            if rate * h > 1.0 || r.at_theta.len() != 2 {
+                continue;
+            }
+            let interp_allow = if c.method == Meth::RK4 { ymax * (rate * h).powi(4) } else { crate::props::c01::C_BOUND * kappa * (base.accepted as f64) * tolscale };
+            let floor = 64.0 * f64::EPSILON * (1.0 + ymax) * (base.recs.len() as f64).sqrt() + 8.0 * ulp(sp.x0.abs().max(sp.xend.abs())) * rate * ymax;
+            let allow = 10.0 * errs[k - 1].max(errs[k]) + interp_allow + floor;
+            for (th, v) in [0.5, 0.8].iter().zip(&r.at_theta) {
+                let t = r.xold + th * (r.x - r.xold);
+                let e = max_abs_diff(v, &prob.exact(t));
+                if e > allow {
+                    return Outcome::viol(format!("{}: the interpolant handed to callback {} of {} is off by {:e} at theta={} (t={:e}, h={:e}) while the step ends are accurate to {:e} / {:e} (allowed {:e})", name, k, base.recs.len() - 1, e, th, t, h, errs[k - 1], errs[k], allow));
+                }
+            }
+        }
+    }
     if base.status == Status::Success {
         let xl = base.recs.last().unwrap().x;
         if (xl - sp.xend).abs() > 1e-12 + 8.0 * tau(sp.x0, sp.xend, xl) {
@@ -164,7 +195,9 @@ pub fn check(c: &Case) -> Outcome {
                 Ok(h) => h,
                 Err(e) => return Outcome::viol(format!("{}: no-op ModifiedSolution at {:?}: {}", name, idx, e)),
             };
-            if c.method != Meth::BDF {
+            // BDF restarts its difference history after a modification, except at the initial call, where the
+            // history consists of y0 and h*f(y0) only and an unchanged state must reproduce it exactly
+            if c.method != Meth::BDF || idx == [0] {
                 if h.status != base.status || h.recs.len() != ncalls {
                     return Outcome::viol(format!("{}: no-op ModifiedSolution at callbacks {:?} changed the run: {} callbacks/{} vs {}/{}", name, idx, h.recs.len(), status_name(h.status), ncalls, status_name(base.status)));
                 }
@@ -247,7 +280,7 @@ fn decaying_real_spec(nmax: usize) -> BoxedStrategy<ProbSpec> {
 
 pub fn strategy() -> BoxedStrategy<Case> {
     let common = || (span_mid(), any_method(), fr(3.0, 8.0), fr(-3.0, 0.0), proptest::option::weighted(0.3, log10(-3.0, -0.5)), proptest::option::weighted(0.2, log10(-1.5, 0.0)), any::<bool>());
-    let general = (prob_spec(5, 0.5, 8.0), common(), prop_oneof![any::<u16>().prop_map(Script::Interrupt), proptest::collection::vec(any::<u16>(), 1..5).prop_map(Script::Noop)]);
+    let general = (prob_spec(5, 0.5, 8.0), common(), prop_oneof![4 => any::<u16>().prop_map(Script::Interrupt), 4 => proptest::collection::vec(any::<u16>(), 1..5).prop_map(Script::Noop), 1 => Just(Script::Noop(vec![0]))]);
     let lin = (decaying_real_spec(4), common(), any::<u16>().prop_map(Script::Double));
     let mk = |(prob, (span, method, re, ar, first_step, max_step, analytic_jac), script): (ProbSpec, (Span, Meth, f64, f64, Option<f64>, Option<f64>, bool), Script)| Case {
         prob,
